@@ -29,7 +29,7 @@ VECTOR = ["model: clone_* (erase original) = erase (real clone)",
 def run(ctx):
     ctx.static_and_proofs("clone")
     quick = ctx.tier == "quick"
-    args = ["-n", "420" if quick else "2400"]
+    args = ["-n", "240" if quick else "2400"]
     cases = ctx.harness("c18", args)
     if cases is None:
         ctx.evidence(dict(evaluations=0, distinct_nontrivial=0, rule="harness did not run", samples=[]))
